@@ -6,9 +6,13 @@ open CV CV.Parse CV.PinParse
 
 def parseKVs (s : String) : Option (List (Nat × Nat)) := listOf parseKV s
 
-def parseActor (base : C04.Cfg) (s : String) : Option PeerCfg :=
+/-- `id:f:r[:v<id.id…>]` -/
+def parseActor (base : C04.Cfg) (s : String) : Option (PeerCfg × Option (List Nat)) :=
   match s.splitOn ":" with
-  | [i, f, r] => do pure { self := ← i.toNat?, follower := f == "1", disableRepin := r == "1", base := base }
+  | [i, f, r] => do pure ({ self := ← i.toNat?, follower := f == "1", disableRepin := r == "1", base := base }, none)
+  | [i, f, r, v] => do
+    let view ← ((v.drop 1).toString.splitOn ".").mapM String.toNat?
+    pure ({ self := ← i.toNat?, follower := f == "1", disableRepin := r == "1", base := base }, some view)
   | _ => none
 
 def parseBase (dm metrics : String) : Option C04.Cfg :=
@@ -19,36 +23,83 @@ def parseBase (dm metrics : String) : Option C04.Cfg :=
            paths := [], blocks := [] }
   | _ => none
 
-def parseLogs (s : String) : Option Logs :=
+/-- a member's log token: operations separated by `;`, `R` = consensus.RmPeer was called -/
+structure RawLog where
+  ops : List C04.LogEntry
+  rmCalls : Nat           -- how many `R`
+  rmLast : Bool           -- no operation after an `R`
+
+def parseRaw (l : String) : Option RawLog :=
+  if l == "-" then some { ops := [], rmCalls := 0, rmLast := true } else do
+  let toks := l.splitOn ";"
+  let ops ← (toks.filter (· != "R")).mapM C04.parseLogEntry
+  let rs := (toks.filter (· == "R")).length
+  pure { ops := ops, rmCalls := rs, rmLast := rs == 0 || (toks.getLast? == some "R" && rs == 1) }
+
+def parseLogs (s : String) : Option (List (Nat × RawLog)) :=
   if s == "-" then some [] else
   (s.splitOn "|").mapM (fun part =>
     match part.splitOn "=" with
-    | [i, l] => do pure (← i.toNat?, ← C04.parseLog l)
+    | [i, l] => do pure (← i.toNat?, ← parseRaw l)
     | _ => none)
+
+def isBad (logs : String) : Bool :=
+  (logs.splitOn "|").any (fun p => p.endsWith "=err" || p.endsWith "=panic" || p.endsWith "=hang")
 
 structure Case where
   r : Round
   base : C04.Cfg
+  actors : List Actor      -- each with its own world
   post : PinMap
-  logs : Logs
-  bad : Bool          -- some member reported err / panic / hang
-  warm : String := "" -- the <w> of `alert@<w>`
+  raw : List (Nat × RawLog)
+  second : Option (PinMap × List (Nat × RawLog)) := none
+  bad : Bool               -- some member reported err / panic / hang
+  warm : String := ""      -- the <w> of `alert@<w>`
+  snap : Bool := false
+  rmFail : Bool := false
+
+def logsOf (raw : List (Nat × RawLog)) : Logs := raw.map (fun l => (l.1, l.2.ops))
 
 def parseCase (ws : List String) : Option Case := do
   let (pre, post) ← splitArrow ws
-  match pre, post with
-  | [kind, members, cids, untr, actors, failed, dm, metrics, pm], [pm', logs] =>
+  match pre with
+  | [kindTok, members, cids, untr, actors, failed, dm, metrics, pm] =>
     let base ← parseBase dm metrics
-    let bad := (logs.splitOn "|").any (fun p => p.endsWith "=err" || p.endsWith "=panic" || p.endsWith "=hang")
-    let logs' := if bad then some [] else parseLogs logs
+    let flags := (kindTok.splitOn "/").drop 1
+    let kind0 := (kindTok.splitOn "/").headD ""
     -- `alert@<w>`: the handler saw an earlier alert that could do nothing; the round is an alert round
-    let warm := if kind.startsWith "alert@" then (kind.drop 6).toString else ""
-    let kind := if kind.startsWith "alert@" then "alert" else kind
-    pure { r := { kind := kind, w := { members := ← parseKVs members, cidHash := ← parseKVs cids, untrusted := ← nats untr },
-                  actors := ← listOf (parseActor base) actors, failed := ← parseOptNat failed, pre := ← parsePinset pm },
-           base := base, post := ← parsePinset pm', logs := ← logs', bad := bad,
-           warm := if warm.startsWith "m" then "m" else warm }
-  | _, _ => none
+    let warm := if kind0.startsWith "alert@" then (kind0.drop 6).toString else ""
+    let kind := if kind0.startsWith "alert@" then "alert" else kind0
+    let mem ← parseKVs members
+    let cidHash ← parseKVs cids
+    let untrusted ← nats untr
+    let w : World := { members := mem, cidHash := cidHash, untrusted := untrusted }
+    let acts ← listOf (parseActor base) actors
+    let actorsW : List Actor := acts.map (fun (pc, v) =>
+      { w := match v with
+             | some view => { w with members := mem.filter (fun m => view.contains m.1) }
+             | none => w,
+        pc := pc, ch := fun _ => [] })
+    let views := acts.filterMap (fun (pc, v) => v.map (fun view => (pc.self, view)))
+    let r : Round := { kind := kind, w := w, actors := acts.map (·.1), failed := ← parseOptNat failed, pre := ← parsePinset pm,
+                       views := views, nonPing := flags.contains "np" }
+    let mk (pm' logs : String) : Option (PinMap × List (Nat × RawLog) × Bool) := do
+      let bad := isBad logs
+      pure (← parsePinset pm', ← (if bad then some [] else parseLogs logs), bad)
+    match post with
+    | [pm', logs] =>
+      let (p1, l1, b1) ← mk pm' logs
+      pure { r := r, base := base, actors := actorsW, post := p1, raw := l1, bad := b1,
+             warm := if warm.startsWith "m" then "m" else warm,
+             snap := flags.any (·.startsWith "snap"), rmFail := flags.contains "rf" }
+    | [pm', logs, pm2, logs2] =>
+      let (p1, l1, b1) ← mk pm' logs
+      let (p2, l2, b2) ← mk pm2 logs2
+      pure { r := r, base := base, actors := actorsW, post := p1, raw := l1, bad := b1 || b2, second := some (p2, l2),
+             warm := if warm.startsWith "m" then "m" else warm,
+             snap := flags.any (·.startsWith "snap"), rmFail := flags.contains "rf" }
+    | _ => none
+  | _ => none
 
 /-- allocation a member chose for a cid: that of its LogPin entry -/
 def chosenOf (l : List C04.LogEntry) : Chosen := fun c =>
@@ -56,50 +107,137 @@ def chosenOf (l : List C04.LogEntry) : Chosen := fun c =>
   | some (.logPin p) => p.allocs
   | _ => []
 
-/-- run the model round with the members' own allocation choices; also collects the C03 admissibility of every choice -/
-def runModel (k : Case) : PinMap × Logs :=
-  k.r.actors.foldl (fun (acc : PinMap × Logs) a =>
-    let ch := chosenOf ((C04.lookup k.logs a.self).getD [])
-    let res := match k.r.kind, k.r.failed with
-      | "alert", some f => onAlert k.r.w a f ch acc.1
-      | "remove", some f => vacate a f ch acc.1
-      | "sync", _ => stateSync k.r.w a acc.1
-      | _, _ => { st := acc.1, log := [] }
-    (res.st, acc.2 ++ [(a.self, res.log)])) (k.r.pre, [])
+def actOne (kind : String) (failed : Option Nat) (a : Actor) (st : PinMap) : Acc :=
+  match kind, failed with
+  | "alert", some f => onAlert a.w a.pc f a.ch st
+  | "remove", some f => vacate a.pc f a.ch st
+  | "sync", _ => stateSync a.w a.pc st
+  | _, _ => { st := st, log := [] }
+
+/-- the model round with the members' own allocation choices; serial: each member on the pinset left by the
+    previous ones; snapshot: each on the pre-state -/
+def runModel (k : Case) (pre : PinMap) (logs : Logs) : PinMap × Logs :=
+  let acts := k.actors.map (fun a => { a with ch := chosenOf ((C04.lookup logs a.pc.self).getD []) })
+  if k.r.nonPing then (pre, acts.map (fun a => (a.pc.self, []))) else
+  if k.snap then (pre, snapLogsWith (actOne k.r.kind k.r.failed) acts pre)
+  else roundWith (actOne k.r.kind k.r.failed) acts pre
+
+/-- snapshot discipline: the final pinset is the commit of the logged operations in SOME order: cid by cid,
+    the entry is the pre-state's if nothing was logged for it, else the effect of one of the operations -/
+def snapStateOk (pre post : PinMap) (mlogs : Logs) : Bool :=
+  let es := allEntries mlogs
+  let cids := (pre.map (·.cid)) ++ (post.map (·.cid))
+  cids.all (fun c =>
+    let ec := forCid c es
+    if ec.isEmpty then (post.get c).map canonPin == (pre.get c).map canonPin
+    else ec.any (fun e => match e with
+      | .logPin p => (post.get c).map canonPin == some (canonPin p.stored)
+      | .logUnpin _ => (post.get c).isNone))
 
 /-- every allocation a member logged is admissible for the C03 relation (current = the pin's previous allocations, failed peer excluded) -/
-def choicesAdmissible (k : Case) : Bool :=
-  match k.r.failed with
+def choicesAdmissible (base : C04.Cfg) (failed : Option Nat) (pre : PinMap) (logs : Logs) : Bool :=
+  match failed with
   | none => true
   | some f =>
-    k.logs.all (fun l => l.2.all (fun e => match e with
+    logs.all (fun l => l.2.all (fun e => match e with
       | .logPin p =>
-        (match k.r.pre.get p.cid with
+        (match pre.get p.cid with
          | some old =>
-           let ai := allocInput k.base f old
+           let ai := allocInput base f old
            -- allocate() is only consulted when the pin is handed over with cleared allocations
            C03.allowed ai (.ok p.allocs) || old.type == .metaT
          | none => false)
       | _ => true))
 
+/-- PeerRemove: RmPeer is called exactly once, after every re-pin -/
+def removeOrderOk (raw : List (Nat × RawLog)) : Bool := raw.all (fun l => l.2.rmCalls == 1 && l.2.rmLast)
+def noRmCalls (raw : List (Nat × RawLog)) : Bool := raw.all (fun l => l.2.rmCalls == 0)
+
+/-- two different members logged a pin for the same cid (possible only without agreement) -/
+def twoRepinners (pre : PinMap) (logs : Logs) : Bool := pre.any (fun p => decide ((pinLoggers logs p.cid).length ≥ 2))
+
+def oneRound (k : Case) (r : Round) (post : PinMap) (raw : List (Nat × RawLog)) : List String × Bool :=
+  let logs := logsOf raw
+  let extra : List (String × Bool) :=
+    if r.kind == "remove" then [("rehome_precedes_membership_change", removeOrderOk raw)]
+    else [("no_membership_change", noRmCalls raw)]
+  let failed := ((clauses r k.base post logs) ++ extra).filter (fun c => !c.2)
+  if !failed.isEmpty then ((failed.map (·.1)).eraseDups, true) else
+  let (mpost, mlogs) := runModel k r.pre logs
+  let stateOk := if k.snap && !r.nonPing then snapStateOk r.pre post mlogs else canonMap mpost == canonMap post
+  let agree := stateOk && mlogs.length == logs.length &&
+    (mlogs.zip logs).all (fun (a, b) => a.1 == b.1 && C04.sameLog a.2 b.2) &&
+    choicesAdmissible k.base r.failed r.pre logs
+  (if agree then [] else ["model-post-size=" ++ toString mpost.length], false)
+
+def stampOf (s : String) : Option Stamp := if s == "z" then some .zero else s.toInt?.map .at
+
+def answerExpat (ws : List String) : String :=
+  match ws with
+  | [st, now, "=>", res] =>
+    match stampOf st, now.toInt? with
+    | some s, some n =>
+      let want := if expiredAt n s then "1" else "0"
+      let arm := match s with
+        | .zero => "zero"
+        | .at t => if t == 0 then "epoch" else if t == n then "eq-now" else if t < n then "before" else "after"
+      -- the statement's "expired": an expiry strictly before now (`specExpired`, Spec/C10)
+      if res == want then "ok arm=expat-" ++ arm
+      else if (res == "1") != specExpired n s then "propfail expired_iff_expiry_strictly_before_now arm=expat-" ++ arm
+      else "diff arm=expat-" ++ arm ++ " model=" ++ want
+    | _, _ => "bad-case parse"
+  | _ => "bad-case parse"
+
+def isSorted (l : List Nat) : Bool := (l.zip l.tail).all (fun (a, b) => decide (a ≤ b))
+
 def answer (ws : List String) : String :=
+  if ws.head? == some "expat" then answerExpat (ws.drop 1) else
   match parseCase ws with
   | none => "bad-case parse"
   | some k =>
     if k.bad then "propfail member_call_failed arm=" ++ k.r.kind else
     if !k.r.pre.wf then "bad-case pre-not-sorted" else
-    let arm := k.r.kind ++ (if k.warm.isEmpty then "" else "-after-" ++ k.warm) ++
-      (if k.logs.all (fun l => l.2.isEmpty) then "-quiet" else "-acted")
-    let failed := (clauses k.r k.base k.post k.logs).filter (fun c => !c.2)
-    if !failed.isEmpty then
-      "propfail " ++ ",".intercalate ((failed.map (·.1)).eraseDups) ++ " arm=" ++ arm
-    else
-      let (mpost, mlogs) := runModel k
-      let agree := canonMap mpost == canonMap k.post &&
-        mlogs.length == k.logs.length &&
-        (mlogs.zip k.logs).all (fun (a, b) => a.1 == b.1 && C04.sameLog a.2 b.2) &&
-        choicesAdmissible k
-      if !agree then "diff arm=" ++ arm ++ " model-post-size=" ++ toString mpost.length
-      else "ok arm=" ++ arm
+    let logs := logsOf k.raw
+    let acted := !(logs.all (fun l => l.2.isEmpty))
+    let failedHeld := match k.r.failed with | some f => k.r.pre.any (fun p => p.allocs.contains f) | none => true
+    let onlyFailed := match k.r.failed with
+      | some f => !k.r.pre.isEmpty && k.r.pre.all (fun p => p.allocs == [f]) &&
+                  k.base.peers.all (fun q => q.1 == f || !q.2.healthy)
+      | none => false
+    let rehomed := match k.r.failed with
+      | some f => (k.r.pre.filter (fun p => p.allocs.contains f && !((k.post.get p.cid).map (·.allocs.contains f)).getD true)).length
+      | none => 0
+    let kept := match k.r.failed with
+      | some f => (k.r.pre.filter (fun p => p.allocs.contains f && ((k.post.get p.cid).map (·.allocs.contains f)).getD false)).length
+      | none => 0
+    let arm := k.r.kind ++ (if k.warm.isEmpty then "" else "-after-" ++ k.warm) ++ (if acted then "-acted" else "-quiet")
+    let dims : List String :=
+      ["members-" ++ toString k.r.w.members.length, "actors-" ++ toString k.actors.length,
+       (if k.snap then "disc-snapshot" else "disc-serial"),
+       (if isSorted (k.actors.map (·.pc.self)) then "order-sorted" else "order-shuffled")] ++
+      (if k.second.isSome then ["repeated-x2"] else []) ++
+      (if !k.r.agreed then ["views-disagree"] else []) ++
+      (if k.r.nonPing then ["metric-not-ping"] else []) ++
+      (if k.rmFail then ["rmpeer-fails"] else []) ++
+      (if !failedHeld then ["failed-holds-nothing"] else []) ++
+      (if onlyFailed then ["only-failed-no-healthy"] else []) ++
+      (if k.r.pre.any (fun p => effMin k.base p == -1) then ["factors-everywhere"] else []) ++
+      (if k.r.kind == "remove" && rehomed > 0 && kept > 0 then ["remove-partial"] else []) ++
+      (if k.r.kind == "remove" && rehomed == 0 && kept > 0 then ["remove-none-rehomed"] else []) ++
+      (if twoRepinners k.r.pre logs then ["two-repinners"] else [])
+    let arms := " arm=" ++ arm ++ String.join (dims.map (fun d => " arm=" ++ d))
+    let (f1, isProp1) := oneRound k k.r k.post k.raw
+    if isProp1 then "propfail " ++ ",".intercalate f1 ++ arms else
+    match k.second with
+    | none => if f1.isEmpty then "ok" ++ arms else "diff" ++ arms ++ " " ++ " ".intercalate f1
+    | some (post2, raw2) =>
+      let r2 : Round := { k.r with pre := k.post }
+      let (f2, isProp2) := oneRound k r2 post2 raw2
+      let once := match k.r.failed with
+        | some f => if k.r.kind == "alert" && k.r.agreed then rehomedOnce f k.post logs (logsOf raw2) else true
+        | none => true
+      if isProp2 || !once then
+        "propfail " ++ ",".intercalate ((if isProp2 then f2.map (· ++ "@2") else []) ++ (if once then [] else ["rehomed_once"])) ++ arms
+      else if f1.isEmpty && f2.isEmpty then "ok" ++ arms else "diff" ++ arms ++ " " ++ " ".intercalate (f1 ++ f2)
 
 end CV.C10
